@@ -122,9 +122,13 @@ def functions_through_unknown_helpers(fb, cg):
         return set(), set()
     inv = set(json.load(open(INVENTORY)).get("functions", []))
     unknown = inventory_names(fb) - inv
+    # the unknown functions themselves and their DIRECT callers (a lambda counts with its enclosing function): the rules are
+    # intraprocedural unless they declare otherwise (FOLLOWS_HELPERS in the property module), so what a helper hides it hides
+    # from the function that calls it
     tainted = set(unknown)
     for u in unknown:
-        tainted |= cg.transitive_callers(u)
+        for (f, e, n) in cg.callers.get(u, []):
+            tainted.add(f.name.split("::$lambda")[0])
     return unknown, tainted
 
 
@@ -197,8 +201,8 @@ class Check:
                         break
                 rel = (fl["file"] or "").replace(REPO + "/", "")
                 base_fn = (fl["function"] or "").split("::$lambda")[0]
-                if not match and base_fn in getattr(self, "tainted", ()):
-                    via = sorted(u for u in self.unknown if u == base_fn or u in self.reach_names(base_fn))[:4]
+                if not match and base_fn in getattr(self, "tainted", ()) and fl["rule"] not in getattr(self, "follows_helpers", {}):
+                    via = sorted(u for u in self.unknown if u == base_fn or any(f.name.split("::$lambda")[0] == base_fn for (f, e, n) in self._cg.callers.get(u, [])))[:4]
                     msg = ("%s: `%s` [%s] is reported in code that now runs through function(s) the rule tables have never seen (%s; not in iora_sa/inventory.json): "
                            "the rule does not follow them, so this is not a verdict — read the new helper(s) against the rule and re-freeze the inventory (tools/mkinventory.py). "
                            "What the rule saw: %s" % (fl["rule"], short_name(fl["function"]), fl["construct"], ", ".join(short_name(v) for v in via) or "?", fl["msg"][:160]))
